@@ -61,6 +61,12 @@ class ElfPrims:
                 stages = src[2] if src[0] == "lazy" else ()
                 base = src[1] if src[0] == "lazy" else src
                 return [(("lazy", base, stages + ((short, args[1]),)), path)]
+        if short in ("collect", "into_iter", "to_vec") and len(args) == 1:
+            src = I._deref_all(path, args[0])
+            if src[0] == "lazy":
+                # collecting the pipeline into a vector keeps the pipeline: whoever consumes the vector sees its one
+                # generic element
+                return [(src, path)]
         if short in ("extend", "for_each") and len(args) == 2:
             it = I._deref_all(path, args[1] if short == "extend" else args[0])
             if it[0] in ("lazy", "iter"):
